@@ -103,6 +103,13 @@ package regclient
 //@   on-go #4: $cfgSpawned = true
 //@   on-call imagePlatformInList: $entryDeselected = $upd($entryDeselected, $idx, !result0 && result1 == nil)
 //@   on-call GetConfig: $cfgWanted = (result1 == nil)
+//@   entry-assume !$srcGot
+//@   on-call ManifestGet: $srcGot = (result1 == nil)
+//@   entry-assume !$tgtListAsked && !$tgtDigAsked
+//@   on-call IsList: $tgtListAsked = (recv == mTgt)
+//@   on-call IsList: $tgtIsList = result
+//@   on-call GetDescriptor: $tgtDigAsked = (recv == mTgt)
+//@   on-call GetDescriptor: $tgtDig = string(result.Digest)
 //@   loop 2 ()
 //@     invariant counter: waitCount >= 0 && waitCount == $spawned - $received && (err == nil ==> $allNil)
 //@   loop 3 (rConf)
@@ -113,6 +120,24 @@ package regclient
 //@     invariant counter: waitCount >= 0 && waitCount == $spawned - $received && $allNil
 //@   loop 6 ()
 //@     invariant counter: waitCount >= 0 && waitCount == $spawned - $received && (err == nil ==> $allNil)
+// C03 "a target manifest that already equals the source is trusted to be complete unless a recursive
+// copy is requested" - and an index is walked even then (its entries carry their own referrers and
+// digest-tags): by the time the copy sets up its tasks the source manifest has been read in full,
+// unless the target holds a manifest of the same digest, no recursion was asked for and the
+// target's manifest is not an index. $srcGot is raised by a successful ManifestGet of the source.
+// $tgtListAsked / $tgtIsList: the most recent IsList was asked of the target's manifest, and its
+// answer; $tgtDigAsked / $tgtDig: likewise for GetDescriptor and the digest it reported.
+//@ ghost $srcGot bool
+//@ ghost $tgtListAsked bool
+//@ ghost $tgtIsList bool
+//@ ghost $tgtDigAsked bool
+//@ ghost $tgtDig string
+//@ callsite context.WithCancel(parent)
+//@   prop C03
+//@   name WithCancel/imageCopyOpt
+//@   in ~
+//@   infunc \)\.imageCopyOpt$
+//@   requires source-read-in-full-unless-the-target-is-trusted: $srcGot || (caller.mTgt != nil && !caller.opt.forceRecursive && $tgtListAsked && !$tgtIsList && caller.sDig != "" && $tgtDigAsked && string(caller.sDig) == $tgtDig)
 // each task copies the element it was started for, between the references of this copy (an index
 // entry by its own digest in both repositories)
 //@ callsite (*RegClient).imageCopyBlob(ctx, refSrc, refTgt, d, opt, bOpt)
